@@ -36,6 +36,12 @@ CHECKS = {
             'every query method and every documented attribute of the returned objects on corpus snippets, prefixes, single-token edits and token soups; any exception other '
             'than the contract\'s ValueError is a failing input (crash classes caused by the absent typeshed are listed known findings matched by exception type + call site).',
             'Coq kernel + vm_compute; the inference engine is not modelled (partial: exploration only for totality); typeshed stubs are absent from this tree.'),
+    'C19': ('Coq proof of the project walk with .gitignore/ignored-folder pruning against a declarative ignore spec + vm_compute correspondence with recurse_find_python_folders_and_files and Project.search',
+            'Theorems (8, closed): a Gallina transcription of gitignored_paths / expand_relative_ignore_paths / recurse_find_python_folders_and_files over os.walk (the two accumulating ignore sets threaded through the whole walk), '
+            'proved sound and complete w.r.t. a declarative spec (an item is hidden iff a .gitignore at or above it names it, or a folder base name is in the fixed list, or it lies below such a folder) for all well-formed trees; '
+            'refutations for the two pre-fix variants; the 30/2000 file limits; Script.search as a filter of get_names; first-wins de-duplication. Tied to /repo per run: generated on-disk trees, the ordered real walk output compared with the model in Coq; '
+            'gitignore parsing, relative expansion, limits, dedupe and search-string splitting driven directly; Project.search/complete_search compared with the known content of the trees.',
+            'Coq kernel + vm_compute; os.walk order supplied from os.scandir; the composition inside Project._search_func, dotted search and stub conversion are oracle-only (partial there).'),
 }
 
 NOT_YET = {
